@@ -112,3 +112,5 @@ def run(col, configs, tier):
         guarded(col, rule_who_lossy, facts)
         guarded(col, X.rule_lossy_independent_shortcuts, facts)
         guarded(col, X.rule_lossy_marker, facts)
+        guarded(col, X.rule_lossy_rounds, facts)
+        guarded(col, X.rule_reparse_skips_zeros, facts)
